@@ -294,6 +294,9 @@ pub fn make_cfg(prop: &str, run_seed: u64) -> (RunCfg, Gen) {
         doc.nested = false;
         doc.kinds = false;
     }
+    if prop == "C04" {
+        doc.bang_ids = rng.chance(1, 8);
+    }
     if prop == "C03" || prop == "C11" {
         doc.nasty = true;
         doc.floats = rng.chance(3, 4);
